@@ -115,6 +115,22 @@ def _n_roots(pub):
     return sum(len(v) for v in pub["types"].values())
 
 
+def early_stops(rng, sig, ops, p=0.45):
+    """Replace intermediate close() calls (never the final one) by close_until with a monotone
+    condition `iter_<rel>().count() >= k`: depending on k it holds at once, after some iteration
+    (the call returns true from inside the loop and a later close() has to finish the work), or
+    never (the call behaves like close())."""
+    rels = [r for r in sorted(sig.rels)]
+    last = max((i for i, o in enumerate(ops) if o[0] == "close"), default=-1)
+    out = []
+    for i, o in enumerate(ops):
+        if o[0] == "close" and i != last and rels and rng.random() < p:
+            out.append(["cu", ITER_CAP, "any", "count", rng.choice(rels), rng.choice((1, 1, 2, 2, 3, 4))])
+        else:
+            out.append(o)
+    return out
+
+
 # ---------------------------------------------------------------------------------------------
 # C01: closedness
 
@@ -130,6 +146,7 @@ def c01_task(task):
     for i in range(task["histories"]):
         create, facts = gen.gen_facts(rng, sig, n_elems=task.get("n_elems", (2, 4)), max_facts=task.get("max_facts", 14))
         ops = gen.with_closes(rng, create, facts, closes=(0, 3))
+        ops = early_stops(rng, sig, ops)
         ops2 = []
         for op in ops:
             ops2.append(op)
@@ -139,6 +156,8 @@ def c01_task(task):
     status, hs, script = _run(meta, hists, out)
     for h in hs:
         evs = h["events"]
+        if any(e.get("e") == "op" and e.get("op") == "cu" and e.get("ret") is True and e.get("iters", 0) >= 2 for e in evs):
+            _cnt(out, "histories_with_close_until_stopped_inside_the_loop")
         last_close = None
         prev_roots = None
         for ev in evs:
@@ -146,6 +165,9 @@ def c01_task(task):
                 continue
             if "panic" in ev:
                 out["violations"].append(_vio("panic:" + ev["panic"][:80], "API call panicked in history %s: %s\nop: %s" % (h["tag"], ev["panic"], ev.get("toks")), th, script))
+                break
+            if ev["op"] == "cu" and ev.get("capped"):
+                _inc(out, "close-capped")
                 break
             if ev["op"] == "close":
                 last_close = ev
@@ -311,6 +333,9 @@ def c03_task(task):
     for i in range(task["factsets"]):
         create, facts = gen.gen_facts(rng, sig, n_elems=task.get("n_elems", (2, 4)), max_facts=task.get("max_facts", 12))
         vs = c03_variants(rng, create, facts, task["variants"])
+        # in every third variant the intermediate closes stop early (close_until with a monotone
+        # condition): the final close() must still reach the same model
+        vs = [early_stops(rng, sig, ops, p=0.6) if j % 3 == 2 else ops for j, ops in enumerate(vs)]
         tags = []
         for j, ops in enumerate(vs):
             tag = "f%dv%d" % (i, j)
@@ -330,7 +355,7 @@ def c03_task(task):
                 p = [e for e in evs if "panic" in e][0]
                 out["violations"].append(_vio("panic:" + p["panic"][:80], "API call panicked in history %s: %s" % (tag, p["panic"]), th, script))
                 continue
-            if any(e.get("capped") for e in evs if e["op"] == "close"):
+            if any(e.get("capped") for e in evs if e["op"] in ("close", "cu")):
                 _inc(out, "close-capped")
                 continue
             dumps = [e for e in evs if e["op"] == "dump"]
